@@ -1,4 +1,6 @@
 //! Wasm-side tooling: T4 (regenerate the emitted glue into Coq), T3 probes, C04/C07 harnesses.
+mod abigen;
+mod c04;
 mod gluegen;
 mod prng;
 
@@ -7,6 +9,8 @@ fn main() {
     if argv.len() < 2 { eprintln!("usage: sfv_harness_wasm <gluegen|...> ..."); std::process::exit(2); }
     let r = match argv[1].as_str() {
         "gluegen" => gluegen::run(&argv[2], &argv[3]),
+        "c04" => c04::run(&argv[2..]),
+        "abigen" => abigen::run(&argv[2], argv.get(3).map(|s| s.as_str())),
         x => { eprintln!("unknown component {}", x); std::process::exit(2); }
     };
     if let Err(e) = r { eprintln!("ERROR: {:#}", e); std::process::exit(1); }
